@@ -259,21 +259,28 @@ fn static_write_monitor(ctx: &mut Ctx, alphabet: &[String]) {
     let exe_s = exe.to_string_lossy().to_string();
     let mut base: Option<usize> = None;
     let mut rw: Vec<(usize, usize)> = vec![];
+    let mut last_end = 0usize;
     for l in maps.lines() {
-        if !l.ends_with(&exe_s) {
-            continue;
-        }
         let mut it = l.split_whitespace();
         let range = it.next().unwrap_or("");
         let perms = it.next().unwrap_or("");
         let (a, b) = range.split_once('-').unwrap_or(("0", "0"));
         let (a, b) = (usize::from_str_radix(a, 16).unwrap_or(0), usize::from_str_radix(b, 16).unwrap_or(0));
+        let fields = l.split_whitespace().count();
+        let is_exe = l.ends_with(&exe_s);
+        // .bss beyond the end of the file is an anonymous mapping directly behind the executable's
+        // last file-backed mapping
+        let is_bss_tail = fields == 5 && a == last_end && last_end != 0;
+        if !is_exe && !is_bss_tail {
+            continue;
+        }
         if base.is_none() {
             base = Some(a);
         }
         if perms.starts_with("rw") {
             rw.push((a, b));
         }
+        last_end = b;
     }
     let base = match base {
         Some(b) => b,
@@ -289,7 +296,12 @@ fn static_write_monitor(ctx: &mut Ctx, alphabet: &[String]) {
         let (addr, size) = (usize::from_str_radix(parts[0], 16).unwrap_or(0), usize::from_str_radix(parts[1], 16).unwrap_or(0));
         let at = base + addr;
         // only symbols that really lie in a writable mapping of the executable (excludes TLS templates)
-        if size == 0 || size > 1 << 20 || !rw.iter().any(|(a, b)| at >= *a && at + size <= *b) {
+        if size == 0 || size > 1 << 20 || addr < 0x1000 {
+            continue; // thread-local templates and the like
+        }
+        if !rw.iter().any(|(a, b)| at >= *a && at + size <= *b) {
+            // a writable static of pushr that the monitor cannot locate: say so, never pass silently
+            ctx.rec.inconclusive("C14", &format!("static-write monitor: symbol {} (at +{:#x}, {} bytes) is not inside a writable mapping of the executable", parts[3], addr, size));
             continue;
         }
         syms.push((at, size, parts[3].to_string()));
@@ -492,16 +504,21 @@ pub fn run(ctx: &mut Ctx) {
             let pts = 3 + r.below(30);
             let d = 1 + r.below(4);
             let prog = gen::program(&mut r, pts, d, Vals::Small, &alphabet);
-            let text = gen::render(&prog);
-            if text.len() > 3000 || text.contains("BIN") {
+            // half of the programs are given as several top-level items (no enclosing list)
+            let text = match (&prog, k % 2) {
+                (SItem::List(v), 1) if v.len() > 1 => v.iter().map(gen::render).collect::<Vec<_>>().join(" "),
+                _ => gen::render(&prog),
+            };
+            if text.len() > 3000 || text.contains("BIN") || !text.is_ascii() {
                 continue;
             }
-            // library side, exactly what the front end does: parse, copy to CODE, step until done
+            // library side: parse, copy to CODE as run() does, step until done
             let mut st = PushState::new();
             let cache0 = pushr::push::instructions::InstructionCache::new(vec![]);
             let r2 = guarded(|| {
+                // the LIBRARY's way (README): parse, then what run() does - its own copy to CODE
                 PushParser::parse_program(&mut st, &is, &text);
-                PushParser::copy_to_code_stack(&mut st);
+                PushInterpreter::copy_to_code_stack(&mut st);
                 let mut steps = 0;
                 loop {
                     if PushInterpreter::step(&mut st, &mut is, &cache0) {
